@@ -41,7 +41,7 @@ REQUIRED_PROBES = ['api_run_with_ejection', 'cli_hamming0_with_near_umis', 'chai
 def plan(tier):
     if tier == 'quick':
         return {'runs': 2000, 'budget_s': 50, 'chunk': 4, 'per_run_timeout': 900}
-    return {'runs': 30000, 'budget_s': 570, 'chunk': 8, 'per_run_timeout': 1800}
+    return {'runs': 80000, 'budget_s': 540, 'chunk': 8, 'per_run_timeout': 1800}
 
 
 def setup():
